@@ -13,6 +13,10 @@ ops:
   loaduhash <0|1>                       0: cache.Shm.Reset() + cache.LoadUHash() (fresh start); 1: cache.LoadUHash() on the
                                         live segment (on-the-fly reload)
   pokerec <uid> <id|-|=> <money>        an external edit of .PASSWDS: user id (`-` empty, `=` unchanged) and Money of a record
+  age <uid> <days> <perm> <lastlogin>   an external edit: LastLogin := <lastlogin> (the harness computed now - days), UserLevel := <perm>
+  expire <id> <startMoney> <killed slots|-> <slot> <hex record>
+                                        ptt.SetupNewUser with a stale .fresh: the clean-up sweep (tryCleanUser → killUser)
+                                        removed the accounts in <killed> (observed, ascending); <slot> as for newuser
   resetconc <G> <N> <seed>              concurrent stress (judged by the oracle only; the model answers `done`)
   resetconcrec <G> <N> <seed>           the same with whole-record writers, readers and a registrar
   set <uid> <money> | de <uid> <money> | get <uid>            (int32 decimals)
@@ -268,6 +272,49 @@ def stepC20 (d : DState) (ws : List String) : DState × String :=
           let filed := match s'.file with | some f => s!"len={f.length} rest={hex16 (fnv f)}" | none => "len=- rest=-"
           ({ st with st := some s', ids := ids', hm := r.1.1 },
            s!"{cls} idd={hex16 (fnv ids'.flatten)} shmd={hex16 (fnv (s'.shm.flatMap le32))} {filed}")
+  | ["age", u, days, perm, ll] =>
+      match st.st, parseI32 u, parseNat days 5, parseNat perm 10, parseI32 ll with
+      | some s, some u, some _, some perm, some ll =>
+          match s.file with
+          | none => (st, "bad-op")
+          | some f =>
+              let base := Gen.Money.recSize * (u - 1).toNat
+              if ¬ ((1 ≤ u ∧ u ≤ (Gen.Money.maxUsers : Int)) ∧ base + Gen.Money.recSize ≤ f.length ∧ perm < 4294967296) then (st, "bad-op") else
+              let f1 := writeAt f (base + Gen.Money.lastLoginOffset) (le32 ll)
+              let f2 := writeAt f1 (base + Gen.Money.userLevelOffset) (le32 (Int.ofNat perm))
+              let s' : State := { s with file := some f2 }
+              ({ st with st := some s' }, "ok " ++ observe2 s' u)
+      | _, _, _, _, _ => (st, "bad-op")
+  | ["expire", id, m, killed, u, hex] =>
+      match st.st, parseI32 m, parseCsv killed, parseI32 u, parseHex hex with
+      | some s, some m, some killed, some u, some rec =>
+          -- driven on a complete .PASSWDS only
+          let complete : Bool := match s.file with
+            | some f => f.length == Gen.Money.recSize * Gen.Money.maxUsers
+            | none => false
+          if ¬ (complete = true ∧ isIdent id ∧ rec.length = Gen.Money.recSize ∧ 0 ≤ u ∧
+                killed.all (fun k => 2 ≤ k ∧ k ≤ (Gen.Money.maxUsers : Int))) then (st, "bad-op") else
+          -- the sweep: killUser on every expired account, in slot order; a fault ends it
+          let r := killed.foldl (fun (acc : State × Option Fault) k =>
+              match acc.2 with
+              | some _ => acc
+              | none => let q := killUser acc.1 k
+                        (q.1, match q.2 with | .error e => some e | .ok _ => none)) (s, none)
+          match r.2 with
+          | some e => ({ st with st := some r.1 }, s!"{e} killed={killed.length}")
+          | none =>
+              let s1 := r.1
+              let shmd := fun (x : State) => hex16 (fnv (x.shm.flatMap le32))
+              let filed := fun (x : State) => match x.file with
+                | some f => s!"len={f.length} rest={hex16 (fnv f)}"
+                | none => "len=- rest=-"
+              if u = 0 then ({ st with st := some s1 }, s!"rejected killed={killed.length} shmd={shmd s1} {filed s1}")
+              else
+                let (s2, a) := step s1 (.newuser u rec m)
+                let d' := { st with st := some s2, ids := st.ids.set (u - 1).toNat (copyInto Gen.Money.userIDSize (id.toList.map Char.toNat)) }
+                (d', (match a with | .ok (_, e) => showErr e | .error f => toString f) ++
+                  s!" killed={killed.length} shmd={shmd s2} {filed s2}")
+      | _, _, _, _, _ => (st, "bad-op")
   | ["pokerec", u, id, m] =>
       match st.st, parseI32 u, parseI32 m with
       | some s, some u, some m =>
